@@ -1192,8 +1192,10 @@ def get_mnemo_expr(ir, instr, *args):
 
     if instr.name.lower() in sbuild.functions:
         mnemo_func = sbuild.functions[instr.name.lower()]
-    else:
+    elif instr.name.lower() in manual_functions:
         mnemo_func = manual_functions[instr.name.lower()]
+    else:
+        raise NotImplementedError("unknown mnemo %s" % instr)
 
     ir, extra_ir = mnemo_func(ir, instr, *args)
     return ir, extra_ir
